@@ -12,6 +12,8 @@ STRUCTURAL = {
     "SIMPLE": "first card of a primary header", "BITPIX": "pixel type of the coefficient image",
     "NAXIS": "number of axes", "NAXIS1": "axis length", "NAXIS9": "axis length", "EXTEND": "announces the extensions",
     "END": "terminates the header: anything written after it is lost (replayed)",
+    "HISTORY": "commentary card: it has no value field, the value comes back empty (replayed)",
+    "CONTINUE": "continues the string of the preceding card: the value comes back empty (replayed)",
 }
 
 
@@ -243,6 +245,8 @@ RESERVED_TABLE = {
     "EXTEND": ("prefix", 6, "structural; historic prefix match"),
     "COMMENT": ("prefix", 7, "commentary cards carry no value"),
     "END": ("exact", None, "terminates the header (D24); exact on purpose: ENDTIME, ENDCAP ... are ordinary user keys"),
+    "HISTORY": ("exact", None, "commentary card without a value field (D46); exact: HISTORYX is an ordinary user key"),
+    "CONTINUE": ("exact", None, "continuation card (D46); exact"),
 }
 
 
@@ -372,6 +376,120 @@ def ks1(P, C):
                 lim = f.nodes[f.strip(ap[0])]["decl"]["id"]
         init = [f.nodes[d["init"]].get("cv") for i in f.walk() if f.k(i) == "DeclStmt" for d in f.nodes[i]["decls"] if d.get("id") == lim and d.get("init", -1) >= 0]
         C.ob("KS-1", name, "short-key-value-limit", init == [68], f.where(), "a standard card leaves 68 characters for a string value: %s" % init)
+
+
+def ks2(P, C):
+    """KS-2: write_key refuses the keys that cfitsio would alter; KS-3: the value limit counts what the card needs."""
+    C.rule("KS-2", "write_key refuses, by a throwing guard that precedes every effect, the keys cfitsio does not store as given: the empty key (a "
+           "card without keyword is commentary), a key that begins or ends with a blank (trimmed), and a key that begins with `HIERARCH ` "
+           "(the prefix is the convention's own marker and is stripped) — every accepted entry has to come back under its own key", floor=4)
+    C.rule("KS-3", "the length test of the value counts every single quote twice: on the card a quote inside a string is doubled, so a value "
+           "that fits by its raw length can overflow the card and come back truncated", floor=1)
+    for f in [g for g in P.fns("write_key") if g.cls == ts.CLS and g.unit == "driver"]:
+        name = ts.fshort(f)
+        at = vg.atomizer(f, ())
+        env = {}
+        for i in f.walk():
+            if f.k(i) == "DeclStmt":
+                for d in f.nodes[i]["decls"]:
+                    if d.get("dk") == "Var" and d.get("init", -1) >= 0 and any(cal and cal["name"] == "strlen" for _x, cal in f.calls(d["init"])):
+                        env[d["id"]] = core.poly(f, d["init"], at)
+        leaves = []
+        for g in vg.guards_of(f):
+            conn, ls = core.cond_leaves(f, f.nodes[g["node"]]["cond"])
+            if conn in ("||", "leaf"):
+                leaves += [(x, g["node"]) for x in ls]
+        key = f.params[0]["id"]
+
+        def key_char(x):
+            """x is key[e]: returns Poly of e, else None"""
+            x = f.strip(x)
+            if f.k(x) != "ArraySubscriptExpr":
+                return None
+            b = f.strip(f.nodes[x]["ch"][0])
+            if f.k(b) == "DeclRefExpr" and f.nodes[b]["decl"].get("id") == key and f.nodes[b]["decl"].get("kind") == "ParmVar":
+                return core.poly(f, f.nodes[x]["ch"][1], at, env)
+            return None
+        found = {"empty": None, "leading-blank": None, "trailing-blank": None, "hierarch-prefix": None}
+        slen = Poly.atom("strlen($0)")
+        for lf, gnode in leaves:
+            n = f.nodes[f.strip(lf)]
+            if n["k"] == "BinaryOperator" and n["op"] in ("==", "<", "<="):
+                # character tests
+                orr = f.oriented(lf, lambda x: key_char(x) is not None)
+                if orr and orr[1] == "==":
+                    e = key_char(orr[0])
+                    cv = f.nodes[orr[2]].get("cv", f.nodes[f.strip(orr[2])].get("v"))
+                    if cv == 32 and e == Poly.const(0):
+                        found["leading-blank"] = gnode
+                    if cv == 32 and e == slen - Poly.const(1):
+                        found["trailing-blank"] = gnode
+                    if cv == 0 and e == Poly.const(0):
+                        found["empty"] = gnode
+                # length tests: strlen(key) == 0, keylen < 2, keylen == 1 ...
+                a, b = core.poly(f, n["ch"][0], at, env), core.poly(f, n["ch"][1], at, env)
+                one = Poly.const(1)
+                G = {"==": None, "<": a - b, "<=": a - b - one}[n["op"]]
+                if G is not None and G == slen - one:                 # true iff strlen(key) < 1
+                    found["empty"] = gnode
+                if n["op"] == "==" and (a - b == slen or b - a == slen):
+                    found["empty"] = gnode
+                cal = f.nodes[f.strip(n["ch"][0])].get("callee") or f.nodes[f.strip(n["ch"][1])].get("callee")
+                if n["op"] == "==" and cal and cal["name"] == "strncmp":
+                    c_ = f.strip(n["ch"][0]) if f.nodes[f.strip(n["ch"][0])].get("callee") else f.strip(n["ch"][1])
+                    a_ = f.args(c_)
+                    lits = [f.nodes[f.strip(x)].get("v") for x in a_[:2] if f.k(f.strip(x)) == "StringLiteral"]
+                    if lits == ["HIERARCH "] and f.nodes[f.strip(a_[2])].get("cv", f.nodes[a_[2]].get("cv")) == 9:
+                        found["hierarch-prefix"] = gnode
+        pos = f.node_positions()
+        effects = [i for i in f.walk() if i in pos and (ts.member_writes(f, i) or (f.nodes[i].get("callee") or {}).get("name") == "allocate")]
+        for what, gnode in sorted(found.items()):
+            ok = gnode is not None
+            if ok:
+                # the leftmost leaf of the condition is evaluated first: its block dominates whatever follows the guard
+                first = core.cond_leaves(f, f.nodes[gnode]["cond"])[1][0]
+                pg = None
+                for x in [first] + list(f.walk(first)):
+                    if x in pos:
+                        pg = pos[x]
+                        break
+                dom = f.dominators()
+                ok = pg is not None and all(pg[0] in dom.get(pos[e][0], ()) for e in effects)
+            C.ob("KS-2", name, "rejects:" + what, ok, f.loc(gnode) if gnode is not None else f.where(),
+                 "a throwing guard refuses the %s key before anything is allocated or stored" % what.replace("-", " ") if ok else
+                 "no throwing guard for the %s key before the first effect: the key is accepted, but the file holds it under another name or without "
+                 "its value" % what.replace("-", " "))
+        # KS-3
+        lim = None
+        for i in f.walk():
+            ap = ts.assign_parts(f, i)
+            if ap and ap[1] is not None and f.k(f.strip(ap[0])) == "DeclRefExpr" and f.k(f.strip(ap[1])) == "BinaryOperator" \
+                    and f.nodes[f.strip(ap[1])]["op"] == "-" and f.nodes[f.strip(f.nodes[f.strip(ap[1])]["ch"][0])].get("cv") == 80:
+                lim = f.nodes[f.strip(ap[0])]["decl"]["id"]
+        ok3 = False
+        det3 = "no guard compares the value length with the limit of the card"
+        for g in vg.guards_of(f):
+            c = f.strip(f.nodes[g["node"]]["cond"])
+            n = f.nodes[c]
+            if n["k"] != "BinaryOperator" or n["op"] not in ("<", "<="):
+                continue
+            sides = [f.strip(x) for x in n["ch"]]
+            if not any(f.k(x) == "DeclRefExpr" and f.nodes[x]["decl"].get("id") == lim for x in sides):
+                continue
+            other = sides[0] if f.k(sides[1]) == "DeclRefExpr" and f.nodes[sides[1]]["decl"].get("id") == lim else sides[1]
+            # the other side must add a count of quote characters of the value
+            cnts = []
+            for y in f.walk(other):
+                yy = y
+                if f.k(y) == "DeclRefExpr" and f.nodes[y]["decl"].get("kind") == "Var":
+                    ds = [d["init"] for x in f.walk() if f.k(x) == "DeclStmt" for d in f.nodes[x]["decls"] if d.get("id") == f.nodes[y]["decl"]["id"] and d.get("init", -1) >= 0]
+                    yy = f.strip(ds[0]) if ds else y
+                cal = f.nodes[yy].get("callee")
+                if cal and cal["name"] in ("count", "count_if") and any(f.nodes[f.strip(a)].get("cv", f.nodes[f.strip(a)].get("v")) == 39 for a in f.args(yy)):
+                    cnts.append(yy)
+            ok3 = bool(cnts)
+            det3 = "the value length compared with the card's limit includes the number of quotes in the value: %s" % ok3
+        C.ob("KS-3", name, "quotes-counted-twice", ok3, f.where(), det3 if ok3 else det3 + " — a value of the maximal raw length that contains a quote is accepted and truncated on the card")
 
 
 def km1(P, C):
@@ -647,6 +765,7 @@ def counter_starts_at_zero(f, vid):
 def run(P, C):
     api1(P, C)
     ks1(P, C)
+    ks2(P, C)
     km1(P, C)
     km2(P, C)
     km4(P, C)
